@@ -55,6 +55,23 @@ type Op struct {
 	N int     `json:"n,omitempty"`
 }
 
+// MarshalJSON always writes "k" for the ops that take a key (the empty key is a
+// legal key and would otherwise vanish from the witness).
+func (o Op) MarshalJSON() ([]byte, error) {
+	m := map[string]interface{}{"o": o.O}
+	switch o.O {
+	case "put", "del", "pute", "get":
+		m["k"] = o.K
+	}
+	if len(o.V) > 0 {
+		m["v"] = o.V
+	}
+	if o.N != 0 {
+		m["n"] = o.N
+	}
+	return json.Marshal(m)
+}
+
 type History struct {
 	Label     string `json:"label"`      // where the generator produced it
 	EveryStep bool   `json:"every_step"` // Hash() + get of the touched key after every mutating op
